@@ -85,6 +85,9 @@ func init() {
 func (c *context) RecvMsg() (*protocol.Message, error) {
 	s := c.s
 
+	// The deadline is armed once per call: a queue resize restarts the
+	// wait, it does not extend the deadline.
+	tq := nilQ
 	for {
 		s.Lock()
 		if c.closed {
@@ -92,7 +95,6 @@ func (c *context) RecvMsg() (*protocol.Message, error) {
 			return nil, protocol.ErrClosed
 		}
 		cq := c.closeQ
-		tq := nilQ
 		rq := s.recvQ
 		zq := s.sizeQ
 		expTime := c.recvExpire
@@ -100,7 +102,7 @@ func (c *context) RecvMsg() (*protocol.Message, error) {
 		c.recvPipe = nil
 		s.Unlock()
 
-		if expTime > 0 {
+		if tq == nil && expTime > 0 {
 			tq = time.After(expTime)
 		}
 
